@@ -37,7 +37,7 @@ CHECKS = {
          "sent commands are re-fed through the queuing hook as MachineCom does; disable inside an episode in G91 is known finding D17"),
  "C15": (E1, "6/C15, 11-13", "all programs ending inside/outside an episode x all script-hook invocation sequences (near-miss names, other types) x end events (all five job-ending events and pause/resume around an open episode), partial homing, region deleted mid-episode, to fix-point; the contribution is decoded as OctoPrint does, executed on printer A and compared with B",
          "prefix lines interpreted as OctoPrint would send them"),
- "C16": (E2, "6/C16, 11-13", "complete grid of I/J arcs (slicer-style offsets; start x radius x start angle x sweep x direction) and R-form chords through planArc/computeArcCenterOffsets, incl. segment count vs arc length, plus end-to-end runs through the hook (12- and 3-decimal coordinates, omitted zero words) against probe regions",
+ "C16": (E2, "6/C16, 11-13", "complete grid of I/J arcs (slicer-style offsets; start x radius x start angle x sweep x direction, incl. arcs ending micrometres from their start) and R-form chords through planArc/computeArcCenterOffsets, incl. segment count vs arc length, plus end-to-end runs through the hook (12- and 3-decimal coordinates, omitted zero words) against probe regions",
          "absolute mm; R-form centre defect D2 is a known finding attributed by exact signature"),
  "C17": (E2, "6/C17, 11-13", "complete grid: 629 rectangles (all corner orders, degenerate) x 76 discs x 1/4-lattice points, and all ordered region pairs of all four type combinations, against exact rational geometry",
          "verdicts that differ only within 1e-12 of a disc border are not reported"),
